@@ -213,3 +213,7 @@ func init() {
 		},
 	})
 }
+
+func (o *c01Oracle) OnDeath(e *core.Engine, idx int, st *core.Step, deaths []string) []core.Violation {
+	return ReplicaDeath("C01", "transcript-equality", e, st, deaths)
+}
